@@ -59,7 +59,7 @@ def analyse_function(chk, db, sigs, owner, kind, rec_q, f, state):
                     astx.loc(f), " || ".join(sorted(set(L.show_path(p) for p in paths)))[:300]), {"where": astx.loc(f)})
             continue
         # ---- per-path typestate
-        bad2 = bad3 = badg = None
+        bad2 = bad3 = badg = bad2d = None
         for p in paths:
             live = not is_ctor
             unsure = False
@@ -68,6 +68,10 @@ def analyse_function(chk, db, sigs, owner, kind, rec_q, f, state):
                     unsure = True
                 if kind == "slot":
                     if t.k == "D" and t.root == "this":
+                        # L2d: the single slot is destroyed a second time with nothing constructed in between
+                        if not live and not unsure and not is_ctor and bad2d is None and any(
+                                s.k == "D" and s.root == "this" for s in p[:i]):
+                            bad2d = (p, t)
                         live = False
                         unsure = False
                     elif t.k == "C" and t.root == "this":
@@ -99,6 +103,11 @@ def analyse_function(chk, db, sigs, owner, kind, rec_q, f, state):
                 chk.violation("L2", construct, "construct-over-live",
                               "%s: constructs into storage that still holds a live object (no destroy on this path): %s" % (
                                   astx.loc(f, bad2[1].info), L.show_path(bad2[0])), {"where": astx.loc(f, bad2[1].info)})
+            chk.obligation("L2d", construct, bad2d is None)
+            if bad2d:
+                chk.violation("L2d", construct, "destroyed-twice",
+                              "%s: destroys the stored object again although nothing was constructed since the previous destroy "
+                              "on this path: %s" % (astx.loc(f, bad2d[1].info), L.show_path(bad2d[0])), {"where": astx.loc(f, bad2d[1].info)})
         chk.obligation("L3", construct, bad3 is None)
         if bad3:
             chk.violation("L3", construct, "state-not-updated",
@@ -253,6 +262,8 @@ def trivreq_rule(chk, files=("_variant/variant.hpp", "_optional/optional.hpp", "
     return n
 
 META = (META[0] + ' ENGAGE (optional from optional: neither side is dereferenced where it may be disengaged; shared with C07).', META[1])
+
+META = (META[0] + ' L2d (a single-slot owner does not destroy its object twice on one path without constructing in between).', META[1])
 
 
 def run(chk, tier):
